@@ -74,6 +74,27 @@ def run(ctx):
             pre = eng.pre_states(s)
             ok = bool(pre) and all(x.resumable for x in pre)
             ctx.ob("C10.D1-pause-block-needs-checkpoint", cname(run_f, s), ok, f"pre-tuples {T.fmt(pre)}", nontrivial=True, where=where(run_f, s))
+        # D5: between clear_checkpoint and the next checkpoint nothing else may re-arm resumability
+        INTERNAL = {"_start_suspender": "internal: only pushed by a suspension that found a checkpoint", "_resume_from_suspender": "internal",
+                    "checkpoint": "the statement's 'next checkpoint'"}
+        seen = set()
+        for cmd, h in eng.handlers.items():
+            if h.key in seen or cmd in INTERNAL:
+                continue
+            seen.add(h.key)
+            if not eng.touches(h):
+                continue
+            outs = eng.summary(h, T.G("running", True, False, False), None)
+            rearm = sorted({k if isinstance(k, str) else k[1] for k, g2 in outs if g2.resumable})
+            ctx.ob("C10.D5-only-checkpoint-rearms", cname(h, None, f"handler of {cmd!r} keeps a cleared checkpoint cleared"), not rearm,
+                   "" if not rearm else f"executing {cmd!r} after clear_checkpoint makes the plan resumable again without a checkpoint: a later pause is "
+                   "accepted and the resume replays from an arbitrary point", nontrivial=True, where=where(h, h.node))
+        st = repo.funcs.get(f"{MOD}:{CLS}.rewindable.setter")
+        if st is not None:
+            outs = eng.summary(st, T.G("running", True, False, False), None)
+            rearm = [1 for k, g2 in outs if g2.resumable]
+            ctx.ob("C10.D5-only-checkpoint-rearms", cname(st, None, "assigning RE.rewindable keeps a cleared checkpoint cleared"), not rearm,
+                   "" if not rearm else "toggling rewindability after clear_checkpoint re-arms resumability", nontrivial=True, where=where(st, st.node))
     else:
         ctx.ob("C10.D1-pause-block-needs-checkpoint", cname(run_f, None, "request coroutines atomic"), False,
                "a request coroutine contains an await; the thread-modular model does not apply")
